@@ -104,7 +104,8 @@ func vxModelParseQuery(query string) (url.Values, error) {
 			vxAssume(false) // outside the model's domain
 		}
 	}
-	for n := 0; query != "" && n <= len(query)+1; n++ {
+	lim := len(query) + 1
+	for n := 0; query != "" && n <= lim; n++ {
 		var key string
 		key, query, _ = vxCutByte(query, '&')
 		if vxHasByte(key, ';') {
